@@ -503,8 +503,13 @@ def jobs_for(ck, spec, route, ops_json=None):
             o = object.__new__(Optimizer)
             o._parameters = q
             o._free_parameter_labels = list(free)
-            cov = o.calculate_covariance_matrix_and_standard_errors(jac, rmse)
-            errs = rmse * np.sqrt(np.diag(cov))
+            try:
+                cov = o.calculate_covariance_matrix_and_standard_errors(jac, rmse)
+            except Exception as e:   # the loop can no longer be driven in isolation: a broken tie, not a verdict
+                ck.disagree("stderr-loop-not-callable", "Optimizer.calculate_covariance_matrix_and_standard_errors(jacobian, rmse) "
+                            f"on an Optimizer holding only parameters and free labels raised {e!r}", {**case0, "op": "stderr"})
+                cov = None
+            errs = rmse * np.sqrt(np.diag(cov)) if cov is not None else np.array([np.nan])
             if np.all(np.isfinite(errs)):
                 jobs.append(Job(f"stderr {pstate} {strs(free)} {lst(ext(x) for x in errs)}", "stderr",
                                 state_of(q), {**case0, "op": "stderr", "ops": [ops[0]]}))
@@ -679,6 +684,22 @@ def oracle_pset(ck, spec, route, order_expected):
             elif s["expr"] is None and not same(p0.value, p1.value):
                 ck.violation("fixed-moved", f"fixed parameter {p0.label} moved {p0.value!r} -> {p1.value!r}", case)
                 return
+        # the selection follows the *current* flags of the same object: fix a free parameter / free a fixed one after
+        # the arrays have been read once (a fit, then `p.vary = False`, then another fit on the same Parameters object)
+        plain = [p for p in ps.all() if p.expression is None]
+        if plain:
+            for _ in range(2):
+                p = ck.rng.choice(plain)
+                p.vary = not p.vary
+            want_free = [p.label for p in ps.all() if p.vary and p.expression is None]
+            for excl, want in ((True, want_free), (False, [p.label for p in ps.all()])):
+                l2 = list(ps.get_label_value_and_bounds_arrays(exclude_non_vary=excl)[0])
+                if l2 != want:
+                    ck.violation("stale-selection-after-flag-change", f"after changing `vary` on the same Parameters object "
+                                 f"get_label_value_and_bounds_arrays(exclude_non_vary={excl}) gives {l2}, the varying "
+                                 f"non-expression parameters are {want}", {**case, "flags_now": {p.label: p.vary for p in ps.all()}})
+                    return
+            ck.count("oracle:flags-changed-after-first-use")
 
 
 # ------------------------------------------------------------------------------------------
